@@ -123,14 +123,14 @@ def main(argv=None):
     seed = int(os.environ.get('VERIF_SEED', '0') or 0)
     tier = a.tier if a.tier in ('quick', 'thorough') else 'quick'
     if tier == 'thorough' and 'VERIF_CROSSCHECK' not in os.environ:
-        os.environ['VERIF_CROSSCHECK'] = '10'      # every unsat re-derived by cvc5 (10 s per leaf), see prove._check_once
+        os.environ['VERIF_CROSSCHECK'] = '3'      # every unsat re-derived by cvc5 (3 s per leaf, 90 s per job), see prove._check_once
     t0 = time.time()
     pm = importlib.import_module('props.' + prop)
     from fvverif import runner
     jobs = pm.jobs(tier)
     if a.only:
         jobs = [j for j in jobs if a.only in j[1] or a.only in j[2]]
-    opts = dict(seed=seed, conformance=(2 if tier == 'quick' else 10), bounded_seeds=(6 if tier == 'quick' else 40),
+    opts = dict(seed=seed, conformance=(2 if tier == 'quick' else 5), bounded_seeds=(6 if tier == 'quick' else 40),
                 timeout_ms=(20000 if tier == 'quick' else 60000))
     res = runner.run_jobs(jobs, opts, procs=a.procs or None)
     res.sort(key=lambda r: r['oid'])
